@@ -1088,3 +1088,96 @@ def run_widecov(facts, run, prop, type_filter=None):
     run.stats = getattr(run, "stats", {})
     run.stats.update(k6_wide_values=n)
     return n
+
+
+# ---------------------------------------------------------------------------
+# K5e: a slice parameter read from index a > 0 upwards, never below
+# ---------------------------------------------------------------------------
+
+def run_slicehead(facts, run, prop, type_filter=None):
+    """For a slice parameter whose every element access in the function has a statically bounded index (constants, Range
+    loop variables) and that is not handed to anything but `len()` / `is_empty()`: if the smallest index ever accessed is
+    a > 0, the first a elements are never looked at -- `for j in 1..v.len() { acc += v[j] * z }` without the constant
+    term `v[0]`.  The number of slice parameters examined is the anchor (no such function exists on the reviewed tree)."""
+    from .absint import FnEval, INF
+    cfg = facts.config
+    n = 0
+    for fn in facts.fns.values():
+        if not fn["file"].startswith("src/") or fn["kind"] == "Closure":
+            continue
+        if type_filter and not type_filter(fn):
+            continue
+        sp = [i for i in range(1, fn["argc"] + 1)
+              if facts.ty(fn["locals"][i][0]).get("k") in ("ref", "ptr") and facts.ty(facts.ty(fn["locals"][i][0])["to"]).get("k") == "slice"]
+        if not sp:
+            continue
+        b = Body(fn)
+        ev = FnEval(facts, b)
+        al = {p: p for p in sp}
+        for _ in range(4):
+            for l in range(fn["argc"] + 1, len(fn["locals"])):
+                if l in al:
+                    continue
+                d = b.single_def(l)
+                if d and d[2] == "A":
+                    rv = d[3][2]
+                    if rv[0] in ("ref", "rawptr") and len(rv[2]) == 2 and rv[2][1] == "*" and rv[2][0] in al:
+                        al[l] = al[rv[2][0]]
+                    elif rv[0] == "use" and rv[1][0] in ("cp", "mv") and len(rv[1][1]) == 1 and rv[1][1][0] in al:
+                        al[l] = al[rv[1][1][0]]
+        mins, unknown, whole, line = {}, set(), set(), {}
+
+        def visit(pl, bi, ln):
+            if pl[0] in al and len(pl) >= 3 and pl[1] == "*" and pl[2] != "*" and pl[2][0] == "i":
+                p = al[pl[0]]
+                iv = ev.at_block(bi).ival(pl[2][1], bi)
+                if iv is None:
+                    unknown.add(p)
+                else:
+                    if iv[0] < mins.get(p, INF):
+                        mins[p] = iv[0]
+                        line[p] = ln
+            elif pl[0] in al and len(pl) >= 3 and pl[1] == "*" and pl[2] != "*" and pl[2][0] in ("c", "s"):
+                p = al[pl[0]]
+                mins[p] = 0 if pl[2][0] == "s" or not pl[2][3] else mins.get(p, INF)
+        for bi in b.reach:
+            blk = b.blocks[bi]
+            for s_ in blk["s"]:
+                if s_[0] != "A":
+                    continue
+                visit(s_[1], bi, s_[3])
+                rv = s_[2]
+                ops = []
+                if rv[0] == "use":
+                    ops = [rv[1]]
+                elif rv[0] == "bin":
+                    ops = [rv[2], rv[3]]
+                elif rv[0] in ("un", "cast"):
+                    ops = [rv[2]]
+                elif rv[0] == "agg":
+                    ops = rv[2]
+                elif rv[0] in ("ref", "rawptr"):
+                    visit(rv[2], bi, s_[3])
+                for o in ops:
+                    if o[0] in ("cp", "mv"):
+                        visit(o[1], bi, s_[3])
+            t = blk["t"]
+            if t[0] == "call" and not (t[1]["f"].endswith("::len") or t[1]["f"].endswith("::is_empty")):
+                for o in t[2]:
+                    if o[0] in ("cp", "mv") and len(o[1]) == 1 and o[1][0] in al:
+                        whole.add(al[o[1][0]])
+        for p, m in sorted(mins.items()):
+            if p in unknown or p in whole or m == INF:
+                continue
+            n += 1
+            ok = m <= 0
+            run.oblige(ok=ok)
+            if not ok:
+                nm = fn["locals"][p][1] or "_%d" % p
+                run.add(Finding("K5e", "%s|%s" % (fn_key(fn), nm),
+                                "limbcov K5e: %s (%s:%s) reads the slice `%s` from index %d upwards only: its first %d element(s) are never "
+                                "looked at" % (fn["name"], fn["file"], line.get(p), nm, m, m),
+                                config=cfg, site="%s:%s" % (fn["file"], line.get(p)), prop=prop))
+    run.stats = getattr(run, "stats", {})
+    run.stats.update(k5e_slices=n)
+    return n
